@@ -2,6 +2,7 @@ package checks
 
 import (
 	"bufio"
+	"bytes"
 	"encoding/json"
 	"fmt"
 	"os"
@@ -12,6 +13,7 @@ import (
 	"sync"
 	"syscall"
 	"time"
+	"verif/internal/mon"
 )
 
 // Child-process isolation (DESIGN §2.4).  A check that may meet process-fatal events (out of
@@ -332,4 +334,46 @@ func runVariantChild(e *Env, mode, dirSuffix, evidenceKey, what string) {
 			r.Inconclusive("re-run with " + what + " did not complete: " + out)
 		}
 	}
+}
+
+// watchedOutput runs a workload child under a generous wall-clock watchdog (a verdict never depends on it: when
+// it fires, the child is sent SIGQUIT so that its goroutine dump lands in the captured output, and the caller
+// decides from the DUMP - goroutines parked on a lock inside the library are a state observation, anything
+// else is inconclusive).
+func watchedOutput(r *mon.Run, cmd *exec.Cmd, thorough bool, what string) ([]byte, error) {
+	limit := 8 * time.Minute
+	if thorough {
+		limit = 60 * time.Minute
+	}
+	var buf bytes.Buffer
+	cmd.Stdout, cmd.Stderr = &buf, &buf
+	if err := cmd.Start(); err != nil {
+		return nil, err
+	}
+	done := make(chan error, 1)
+	go func() { done <- cmd.Wait() }()
+	select {
+	case err := <-done:
+		return buf.Bytes(), err
+	case <-time.After(limit):
+	}
+	cmd.Process.Signal(syscall.SIGQUIT)
+	var err error
+	select {
+	case err = <-done:
+	case <-time.After(20 * time.Second):
+		cmd.Process.Kill()
+		err = <-done
+	}
+	out := buf.String()
+	if i := strings.Index(out, "fin-proto-go"); i >= 0 && (strings.Contains(out, "sync.(*RWMutex)") || strings.Contains(out, "sync.(*Mutex)") || strings.Contains(out, "sync.runtime_Semacquire")) {
+		lo := i - 1500
+		if lo < 0 {
+			lo = 0
+		}
+		r.Violate(r.Prop+"/workload-blocked-forever-on-a-lock", r.Prop+"/workload-blocked-forever-on-a-lock", map[string]any{"workload": what, "waited": limit.String(), "goroutine_dump": out[lo:min(len(out), lo+3000)], "observed": "no progress for the whole watchdog period and goroutines parked on a lock inside the library"})
+	} else {
+		r.Inconclusive(what + " did not finish within " + limit.String())
+	}
+	return buf.Bytes(), err
 }
